@@ -7,6 +7,8 @@ package main
 import (
 	"encoding/json"
 	"flag"
+	"go/ast"
+	"go/token"
 	"fmt"
 	"os"
 	"path/filepath"
@@ -86,6 +88,7 @@ var (
 	flagSched    = flag.String("sched", "", "(dev) fifo|all")
 	flagPreempt  = flag.Int("preempt", 0, "(dev) preemption bound")
 	flagMaxPaths = flag.Int("maxpaths", 0, "(dev) path budget")
+	flagConc     = flag.Int("concretize", 0, "(dev) concretisation fan-out bound")
 	flagWitness  = flag.Bool("witness", false, "(dev) run as witness twin")
 	flagReplay   = flag.String("replay", "", "replay a counterexample file natively")
 	flagNoNative = flag.Bool("nonative", false, "skip native replay validation")
@@ -136,7 +139,7 @@ func main() {
 			}
 		}
 	} else if *flagGroup != "" && *flagEntry != "" {
-		b := &Bounds{Params: map[string]int64{}, Sched: *flagSched, Preempt: *flagPreempt, MaxPaths: *flagMaxPaths, Encoding: *flagEnc}
+		b := &Bounds{Params: map[string]int64{}, Sched: *flagSched, Preempt: *flagPreempt, MaxPaths: *flagMaxPaths, Encoding: *flagEnc, Concretize: *flagConc}
 		for _, kv := range strings.Split(*flagParams, ",") {
 			if k, v, ok := strings.Cut(kv, "="); ok {
 				n, _ := strconv.ParseInt(v, 10, 64)
@@ -332,6 +335,33 @@ func load(groups []string) (*loaded, error) {
 	}
 	p := interp.NewProgram(sprog)
 	p.Verbose = *flagV
+	// //go:embed variables are filled in by the linker, not by init code
+	packages.Visit(initial, nil, func(pk *packages.Package) {
+		for _, f := range pk.Syntax {
+			for _, d := range f.Decls {
+				gd, ok := d.(*ast.GenDecl)
+				if !ok || gd.Tok != token.VAR || gd.Doc == nil {
+					continue
+				}
+				for _, c := range gd.Doc.List {
+					if !strings.HasPrefix(c.Text, "//go:embed ") {
+						continue
+					}
+					pat := strings.TrimSpace(strings.TrimPrefix(c.Text, "//go:embed "))
+					dir := filepath.Dir(pk.Fset.Position(f.Pos()).Filename)
+					data, err := os.ReadFile(filepath.Join(dir, pat))
+					if err != nil {
+						continue
+					}
+					for _, sp := range gd.Specs {
+						if vs, ok := sp.(*ast.ValueSpec); ok && len(vs.Names) == 1 {
+							p.SetEmbed(pk.PkgPath, vs.Names[0].Name, data)
+						}
+					}
+				}
+			}
+		}
+	})
 	kf, _ := loadKF()
 	p.SetKnownFindings(kf)
 	if err := p.RunInit(hp); err != nil {
